@@ -60,7 +60,7 @@ def roundtrip(p, case, part, extra_key=None):
     d = S.diff(s0, S.project(p2))
     if d:
         return [C.viol("roundtrip", dict(key, path=C.first_diff_key(d)), {"diff": S.diff_text(d)}, case)], b
-    return [], b
+    return C.api_paths_agree(p, b, key, case, files=(part in ("field", "name", "metamodules"))), b
 
 
 # ----------------------------------------------------------------------------- case builders
